@@ -40,7 +40,17 @@ const (
 // Recording stub backend (conn mode): replies are a pure function of the arguments
 // ---------------------------------------------------------------------------
 
-type vsStubBackend struct{ log []string }
+// The stub only keeps references during a connection (what it allocates is
+// charged to the allocation bound); the call log is rendered afterwards.
+type vsStubCall struct {
+	name  string
+	args  [][]byte
+	pairs [][2][]byte
+	set   setArgs
+	delta int64
+}
+
+type vsStubBackend struct{ calls []vsStubCall }
 
 func vsQ(b []byte) string { return strconv.Quote(string(b)) }
 
@@ -54,42 +64,69 @@ func vsQJoin(name string, parts [][]byte) string {
 	return sb.String()
 }
 
+// render produces the textual call log (after the measurement window).
+func (b *vsStubBackend) render() []string {
+	out := make([]string, 0, len(b.calls))
+	for _, c := range b.calls {
+		switch c.name {
+		case "SET":
+			out = append(out, vsQJoin("SET", [][]byte{c.set.Key, c.set.Value})+fmt.Sprintf(" nx=%v xx=%v exp=%d", c.set.NX, c.set.XX, c.set.ExpireAt))
+		case "MSET":
+			flat := make([][]byte, 0, 2*len(c.pairs))
+			for _, p := range c.pairs {
+				flat = append(flat, p[0], p[1])
+			}
+			out = append(out, vsQJoin("MSET", flat))
+		case "INCRBY":
+			out = append(out, vsQJoin("INCRBY", c.args)+" "+strconv.FormatInt(c.delta, 10))
+		default:
+			out = append(out, vsQJoin(c.name, c.args))
+		}
+	}
+	return out
+}
+
 func vsStubValue(key []byte) []byte { return append([]byte("v:"), key...) }
 
 func (b *vsStubBackend) Get(key []byte) (*redisValue, error) {
-	b.log = append(b.log, vsQJoin("GET", [][]byte{key}))
+	b.calls = append(b.calls, vsStubCall{name: "GET", args: [][]byte{key}})
 	return &redisValue{Value: vsStubValue(key), Found: true}, nil
 }
 func (b *vsStubBackend) Set(a setArgs) (bool, error) {
-	b.log = append(b.log, vsQJoin("SET", [][]byte{a.Key, a.Value})+fmt.Sprintf(" nx=%v xx=%v exp=%d", a.NX, a.XX, a.ExpireAt))
+	b.calls = append(b.calls, vsStubCall{name: "SET", set: a})
 	return true, nil
 }
 func (b *vsStubBackend) Del(keys [][]byte) (int64, error) {
-	b.log = append(b.log, vsQJoin("DEL", keys))
+	b.calls = append(b.calls, vsStubCall{name: "DEL", args: keys})
 	return int64(len(keys)), nil
 }
 func (b *vsStubBackend) MGet(keys [][]byte) ([]*redisValue, error) {
-	b.log = append(b.log, vsQJoin("MGET", keys))
+	b.calls = append(b.calls, vsStubCall{name: "MGET", args: keys})
 	out := make([]*redisValue, len(keys))
+	slab := make([]redisValue, len(keys))
+	n := 0
+	for _, k := range keys {
+		n += len(k) + 2
+	}
+	buf := make([]byte, 0, n)
 	for i, k := range keys {
-		out[i] = &redisValue{Value: vsStubValue(k), Found: true}
+		st := len(buf)
+		buf = append(append(buf, 'v', ':'), k...)
+		slab[i] = redisValue{Value: buf[st:len(buf):len(buf)], Found: true}
+		out[i] = &slab[i]
 	}
 	return out, nil
 }
 func (b *vsStubBackend) MSet(pairs [][2][]byte) error {
-	flat := make([][]byte, 0, 2*len(pairs))
-	for _, p := range pairs {
-		flat = append(flat, p[0], p[1])
-	}
-	b.log = append(b.log, vsQJoin("MSET", flat))
+	b.calls = append(b.calls, vsStubCall{name: "MSET", pairs: pairs})
 	return nil
 }
 func (b *vsStubBackend) Exists(keys [][]byte) (int64, error) {
-	b.log = append(b.log, vsQJoin("EXISTS", keys))
+	b.calls = append(b.calls, vsStubCall{name: "EXISTS", args: keys})
 	return int64(len(keys)), nil
 }
 func (b *vsStubBackend) IncrBy(key []byte, delta int64) (int64, error) {
-	b.log = append(b.log, vsQJoin("INCRBY", [][]byte{key})+" "+strconv.FormatInt(delta, 10))
+	b.calls = append(b.calls, vsStubCall{name: "INCRBY", args: [][]byte{key}, delta: delta})
 	return delta, nil
 }
 func (b *vsStubBackend) Close() error { return nil }
@@ -615,7 +652,7 @@ func vsDeliver(srv *redisServer, stub *vsStubBackend, parseMode bool, chunks []v
 		}
 	}()
 	if stub != nil {
-		stub.log = make([]string, 0, 64)
+		stub.calls = make([]vsStubCall, 0, 256)
 	}
 	parsed := make([][][]byte, 0, 64)
 	synctest.Wait()
@@ -679,7 +716,7 @@ func vsDeliver(srv *redisServer, stub *vsStubBackend, parseMode bool, chunks []v
 	obs.replyRaw = replyBuf
 	obs.parsed = parsed
 	if stub != nil {
-		obs.calls = stub.log
+		obs.calls = stub.render()
 	}
 	return obs
 }
@@ -799,6 +836,9 @@ func vsJudgeC31(res *sim.Result, c *sim.Case, di int, mode, declared string, lea
 	if obs.alloc > uint64(8*obs.sent+vsAllocSlack) {
 		res.Probes["alloc_over_8x"]++
 	}
+	if obs.alloc > uint64(32*obs.sent+vsAllocSlack) && obs.alloc <= limit {
+		res.Probes["alloc_over_32x_within_bound"]++
+	}
 	// 3. replies are well-formed RESP.
 	var replies []vsReply
 	if mode == "conn" {
@@ -826,7 +866,7 @@ func vsJudgeC31(res *sim.Result, c *sim.Case, di int, mode, declared string, lea
 				res.Violate(di, "reply_malformed", map[string]string{"cause": cause},
 					"reply stream is not well-formed RESP (%s) after %d replies; replies start %s; input %s",
 					rep.Str, len(replies), vsShort(string(obs.replyRaw)), vsShort(string(stream)))
-				break
+				return // replies can no longer be attributed to commands
 			}
 			replies = append(replies, rep)
 		}
